@@ -745,6 +745,11 @@ func runRepl(w *World) {
 			for _, df := range diffStates(lp, fsn, w.now().Unix()) {
 				cls := "follower_" + df.kind
 				switch {
+				case dupLockId(lp[df.key]):
+					// the leader holds the key twice under one LockId (two queued requests of one LockId were
+					// both granted by a wake-up pass, finding F88): replaying the second record on a
+					// follower meets a LockId that already holds, and is refused
+					cls = "duplid_" + cls
 				case tainted[df.key]:
 					cls = "relock_" + cls
 				case df.kind == "value_differs" && (rr.valueTouchedByEndedHold(df.key, lp[df.key]) || rr.valueTouchedByEndedHold(df.key, fsn[df.key])):
@@ -785,4 +790,19 @@ func init() {
 		Kind   string
 		Weight int
 	}{"repl", 10})
+}
+
+// dupLockId: the key is held twice under one LockId.
+func dupLockId(k *CanonKey) bool {
+	if k == nil {
+		return false
+	}
+	seen := map[string]bool{}
+	for _, h := range k.Holds {
+		if seen[h.Lid] {
+			return true
+		}
+		seen[h.Lid] = true
+	}
+	return false
 }
